@@ -241,17 +241,6 @@ def opsOutside : OpExpr → Bool
      | .ok sa => (specMro sa).isEmpty
      | _ => false)
 
-/-- `And(…, default=d) & x` / `Or(…, default=d) | x`: the flattening overload drops `d` -/
-def dropsDefault : OpExpr → Bool
-  | .leaf _ => false
-  | .band a b =>
-    dropsDefault a || dropsDefault b ||
-    (match build expectedBoolOps true a with | .ok (.and _ (some _)) => true | _ => false)
-  | .bor a b =>
-    dropsDefault a || dropsDefault b ||
-    (match build expectedBoolOps true a with | .ok (.or _ (some _)) => true | _ => false)
-  | .inv a => dropsDefault a
-
 def modelObs (s : Spec) (t : V) : Obs :=
   match ctorErr s with
   | some e => .ctor e.cls
@@ -281,11 +270,7 @@ def run (j : Json) : Except String Json := do
       | .ok s => s!"ops-{specHead s}:{verdictTag (denote ct s target).1}"
     return Json.mkObj [("agree", agree), ("holds", holds), ("model", obsToJson mObs), ("branch", tag),
       ("wf", WF genEnv),
-      ("model_holds", checkOps ct e target mObs),
-      -- the implementation behaves exactly like the flattened constructor tree, which has lost a default
-      ("known", if !holds && agree && dropsDefault e &&
-          (match built with | .ok s => checkC10 ct s target implObs | .error _ => false)
-        then "ops_flatten_drops_default" else "")]
+      ("model_holds", checkOps ct e target mObs)]
   else
     let s ← specOfJson (← j.getObjVal? "spec")
     let mObs := modelObs s target
